@@ -584,7 +584,7 @@ def run_inter_case(case: dict, explicit: bool = False) -> dict:
     viol: list[dict] = []
     xd: dict[str, Any] = {}
     xv: dict[str, Any] = {}
-    stats = {"events": 0, "switches": 0, "hot_points": 0, "nontrivial": False, "interleaving": None}
+    stats = {"events": 0, "switches": 0, "hot_points": 0, "lock_waits": 0, "nontrivial": False, "interleaving": None}
 
     def task_fn(t: dict) -> Any:
         e = build(t["recipe"])
@@ -639,6 +639,7 @@ def run_inter_case(case: dict, explicit: bool = False) -> dict:
     stats["events"] = s0.events + s1.events
     stats["switches"] = s1.switches
     stats["hot_points"] = s1.hot_points
+    stats["lock_waits"] = s1.blocked_yields
     inside = [x for x in s1.log if x[1] not in ("begin", "end") and x[2] > 0]
     stats["nontrivial"] = bool(inside)
     if inside:
@@ -781,8 +782,8 @@ def run_range(args: dict, out: Any) -> None:
             res = run_inter_case(case)
             done += 1
             st = res["stats"]
-            for k in ("events", "switches", "hot_points"):
-                agg[k] = agg.get(k, 0) + st[k]
+            for k in ("events", "switches", "hot_points", "lock_waits"):
+                agg[k] = agg.get(k, 0) + st.get(k, 0)
             agg["inter_scenarios"] = agg.get("inter_scenarios", 0) + 1
             agg["inter_tasks"] = agg.get("inter_tasks", 0) + sum(len(v) for v in case["callers"].values())
             nontrivial += int(st["nontrivial"])
